@@ -245,6 +245,22 @@ class Pair:
             else:
                 self.expect.append(("get-lookup", None, kind, href))
 
+    def ops_for_upload_prefix(self, ci, cname, href, raw, size, mt):
+        """model ops for an object uploaded by the prefix and then touched: upload (entry from the uploader) + edit"""
+        ce = os.path.join(self.sut.cache_dir(cname), href)
+        c = self.cid(raw)
+        ent = self.entry_of(open(ce, "rb").read()) if os.path.exists(ce) else None
+        if ent:
+            self.up_tbl[c] = ent[1]
+        # the entry was written for the stat the file had at upload time; the file now has another mtime
+        key = ent[0] if ent else None
+        if key and key.get("kind") == "s":
+            self.ops.append({"op": "upload", "coll": ci, "h": self.hid(href), "f": {"c": c, "size": key["size"], "mtime": key["mtime"]}})
+        else:
+            self.ops.append({"op": "upload", "coll": ci, "h": self.hid(href), "f": self.file_json(raw, size, mt)})
+        self.expect.append(("upload", None, None))
+        self.ops.append({"op": "edit", "coll": ci, "h": self.hid(href), "f": self.file_json(raw, size, mt)})
+
     # ---- a client request on both sides ---------------------------------------------------------------------
     def both(self, method, path, body=None, **env):
         r1 = observe(method, *self.ref.request(method, path, body, login="u:pw", **env))
@@ -260,9 +276,42 @@ class Pair:
         return r2, events
 
 
+def twins_prefix(p, rng):
+    """two objects with one UID in two calendars, whose files have the same size and the same mtime (a file system
+    with coarse time stamps, a restore): both are read (entries keyed by size+mtime exist), then one is MOVEd over the
+    other.  The entry of the overwritten file must not be served for the moved one."""
+    uid = rng.choice(UIDS)
+    a, b = rng.choice(HREFS), rng.choice(HREFS)
+    p.both("PUT", "/u/c/" + a, ev(uid, 1), CONTENT_TYPE="text/calendar")
+    p.both("PUT", "/u/d/" + b, ev(uid, 2), CONTENT_TYPE="text/calendar")
+    t = 1_700_000_000_000_000_000 + rng.randrange(1000) * 10**9
+    for side in (p.ref, p.sut):
+        for c, h in (("c", a), ("d", b)):
+            fp = os.path.join(side.coll_dir(c), h)
+            if os.path.exists(fp):
+                os.utime(fp, ns=(t, t))
+    for ci, c, h in ((0, "c", a), (1, "d", b)):
+        fs = p.sut.files(c)
+        if h in fs:
+            raw, size, mt = fs[h]
+            p.ops_for_upload_prefix(ci, c, h, raw, size, mt)
+    for path in ("/u/c/" + a, "/u/d/" + b):
+        r, events = p.both("GET", path)
+        p.reads(events)
+    r, events = p.both("MOVE", "/u/c/" + a, HTTP_DESTINATION="http://127.0.0.1/u/d/" + b, HTTP_OVERWRITE="T")
+    p.reads(events)
+    if r["status"] in (201, 204):
+        p.ops.append({"op": "xmove", "coll": 0, "h": p.hid(a), "to": p.hid(b)})
+    r, events = p.both("GET", "/u/d/" + b)
+    p.reads(events)
+    p.log.append(["TWINS", a, b])
+
+
 def run_history(ctx, rng, hid, length):
     p = Pair(ctx, rng)
     try:
+        if rng.random() < 0.35:
+            twins_prefix(p, rng)
         for step in range(length):
             if not p.ok:
                 break
